@@ -35,6 +35,7 @@ Fixpoint visit_expr (e : expr) (t : tstate) {struct e} : tstate :=
   | EConst _ => t
   | EVar x => t_lookup x t
   | EList items => (fix go l t := match l with [] => t | x :: r => go r (visit_expr x t) end) items t
+  | EMap pairs => (fix go (l : list (expr * expr)) t := match l with [] => t | (k, v) :: r => go r (visit_expr v (visit_expr k t)) end) pairs t
   | ENeg a | ENot a => visit_expr a t
   | EBin _ a b | EAnd a b | EOr a b => visit_expr b (visit_expr a t)
   | ECmp a rest => (fix go (l : list (cmpop * expr)) t := match l with [] => t | (_, x) :: r => go r (visit_expr x t) end) rest (visit_expr a t)
@@ -94,10 +95,10 @@ Fixpoint walk (s : stmt) (t : tstate) {struct s} : tstate :=
       let t := t_assign N_loop t in
       let t := t_pop (walk_list body t) in
       t_pop (match els with Some b => walk_list b (t_push t) | None => t_push t end)
-  | SSet x e => t_assign x (visit_expr e t)
+  | SSet tg e => assign_target tg (visit_expr e t)
   | SSetBlock x body _ => t_assign x (t_pop (walk_list body (t_push t)))
   | SWith binds body =>
-      let t := fold_left (fun t b => t_assign (fst b) (visit_expr (snd b) t)) binds (t_push t) in
+      let t := fold_left (fun t b => assign_target (fst b) (visit_expr (snd b) t)) binds (t_push t) in
       t_pop (walk_list body t)
   | SMacro nm params defaults body => t_assign nm (t_pop (visit_macro true params defaults body (t_push t)))
   | SCallBlock mn args body =>
